@@ -801,6 +801,32 @@ MUTANTS = {
           "    self.use_ste = use_ste\n", 
           "    self.use_ste = use_ste\n    self._ste_at_construction = use_ste\n",
           matches=4, which=3)]),
+    # --- round 17 ---------------------------------------------------------
+    # the scheduler's step counter as a class-level numpy array
+    "m132_scheduler_counter_at_class_level": dict(expect=["C07"], edits=[
+        E("qkeras/callbacks.py",
+          "class QNoiseScheduler(tf.keras.callbacks.Callback):\n",
+          "class QNoiseScheduler(tf.keras.callbacks.Callback):\n"
+          "  num_iters = np.array(0, dtype=\"int64\")\n"),
+        E("qkeras/callbacks.py",
+          "    self.num_iters = np.array(0, dtype=\"int64\")\n", "")]),
+    # get_weights quantizes with copies of the layer's quantizers
+    "m133_get_weights_on_copied_quantizers": dict(expect=["C18"], edits=[
+        E("qkeras/qtools/qtools_util.py",
+          "        out[j] = K.eval(\n"
+          "            layer.get_quantizers()[j](K.constant(weight)))\n",
+          "        out[j] = K.eval(copy.deepcopy(\n"
+          "            layer.get_quantizers()[j])(K.constant(weight)))\n")]),
+    # limit groups created from one shared dictionary
+    "m134_limit_groups_from_one_dict": dict(expect=["C20"], edits=[
+        E("qkeras/autoqkeras/autoqkeras_internal.py",
+          "      if name not in self.groups:\n"
+          "        self.groups[name] = {index: (q_name, q_dict[q_name])}\n"
+          "      else:\n"
+          "        self.groups[name][index] = (q_name, q_dict[q_name])\n",
+          "      if not self.groups:\n"
+          "        self.groups = dict.fromkeys(self.limit, {})\n"
+          "      self.groups[name][index] = (q_name, q_dict[q_name])\n")]),
     "m95_po2_operand_converted_in_place": dict(expect=["C17"], edits=[
         E(QO + "adder_factory.py",
           "    local_quantizer_1 = copy.deepcopy(quantizer_1)\n"
